@@ -33,9 +33,12 @@ def _posterior_dataset(names, n_chains=2, n_draws=3, ids=('a', 'b')):
 def entry_points():
     eps = []
 
-    def add(name, fn, stochastic=True, gen_ok=True, discrete=False, axis=None):
+    def add(name, fn, stochastic=True, gen_ok=True, discrete=False, axis=None, between=None, fresh=None):
+        # fresh: the same seeded call on a NEWLY built object (a seeded result depends on arguments and seed only)
         # axis: the axis of the returned array that runs over the samples of the call (None: a table, not judged cell-wise)
-        eps.append(dict(name=name, fn=fn, stochastic=stochastic, gen_ok=gen_ok, discrete=discrete, axis=axis))
+        # between: ANOTHER call on the same object made between two seeded calls (default: the same call, unseeded)
+        eps.append(dict(name=name, fn=fn, stochastic=stochastic, gen_ok=gen_ok, discrete=discrete, axis=axis, between=between,
+                        fresh=fresh))
     mo = np.array([1.0, 2.0, 1.5])
     for kind, par in (('G', [0.5]), ('M', [0.3]), ('C', [0.4, 0.2]), ('L', [0.3])):
         em = probes.error_model(kind)
@@ -85,11 +88,15 @@ def entry_points():
         lambda seed: prp.sample(TIMES, n_samples=2, seed=seed)['Value'].to_numpy(dtype=float), gen_ok=False)
     post = _posterior_dataset(pm.get_parameter_names())
     pop = chi.PosteriorPredictiveModel(pm, post)
+    pop.sample(TIMES, n_samples=1, individual='a', seed=0)          # (the object was used for ANOTHER individual first)
     add('PosteriorPredictiveModel.sample',
-        lambda seed: pop.sample(TIMES, n_samples=2, individual='b', seed=seed)['Value'].to_numpy(dtype=float))
+        lambda seed: pop.sample(TIMES, n_samples=2, individual='b', seed=seed)['Value'].to_numpy(dtype=float),
+        between=lambda: pop.sample(TIMES, n_samples=3, individual='a', seed=None),      # (another individual in between)
+        fresh=lambda seed: chi.PosteriorPredictiveModel(pm, post).sample(TIMES, n_samples=2, individual='b', seed=seed)['Value'].to_numpy(dtype=float))
     pam = chi.PAMPredictiveModel([pop, chi.PosteriorPredictiveModel(pm, post)], weights=[2, 1])
     add('PAMPredictiveModel.sample',
-        lambda seed: pam.sample(TIMES, n_samples=3, individual='a', seed=seed).sort_values(['ID', 'Observable', 'Time'])['Value'].to_numpy(dtype=float))
+        lambda seed: pam.sample(TIMES, n_samples=3, individual='a', seed=seed).sort_values(['ID', 'Observable', 'Time'])['Value'].to_numpy(dtype=float),
+        between=lambda: pam.sample(TIMES, n_samples=2, individual='b', seed=None))
     ll = chi.LogLikelihood(probes.ProbeMech(2, 1, tag='rsll'), chi.GaussianErrorModel(), [1.0, 2.0], [0.5, 1.0])
     lp = chi.LogPosterior(ll, pints.ComposedLogPrior(pints.GaussianLogPrior(1, 0.2), pints.GaussianLogPrior(1, 0.2),
                                                      pints.LogNormalLogPrior(-1, 0.2)))
@@ -188,10 +195,15 @@ def pattern_case(i):
             a = np.asarray(fn(7), dtype=float)
             np.random.seed(202)
             np.random.normal(size=5)
-            fn(None)                                   # an unrelated sampling call in between
+            (ep.get('between') or (lambda: fn(None)))()   # an unrelated sampling call in between
             b = np.asarray(fn(7), dtype=float)
             if a.shape != b.shape or not np.array_equal(a, b):
                 out.append(('Reproducible', 'same_seed_differs', dict(first=a.flatten()[:4].tolist(), second=b.flatten()[:4].tolist())))
+            if ep.get('fresh'):
+                f_ = np.asarray(ep['fresh'](7), dtype=float)
+                if f_.shape != b.shape or not np.array_equal(f_, b):
+                    out.append(('Reproducible', 'used_object_differs_from_a_fresh_one', dict(used=b.flatten()[:4].tolist(),
+                                                                                             fresh=f_.flatten()[:4].tolist())))
             for s0 in (0, np.int64(3)):                # zero is a seed like any other; so is a NumPy integer
                 np.random.seed(303)
                 a0 = np.asarray(fn(s0), dtype=float)
